@@ -394,3 +394,40 @@ func VerifH_C11_WideDigests() {
 	vCover("shared-leading-word-descending-load", vBytesEq(d0[:8], d1[:8]) && d0[8] > d1[8])
 	vCover("distinct-leading-word", !vBytesEq(d0[:8], d1[:8]))
 }
+
+// VerifH_C09_IndexIterate: iterating a parsed index is total as well. A multihash-sorted index with
+// one hash code and one bucket whose record width (8+1..8+4) and data length (0..N, so also lengths
+// that are not a multiple of the width: a trailing partial record) are arbitrary, over arbitrary
+// data cut anywhere: ReadFrom either rejects it or yields an index whose ForEach does not panic and
+// delivers no record that extends beyond the bucket's data.
+func VerifH_C09_IndexIterate() {
+	N := 12
+	code := vU8("code")
+	vAssume(vOr(code == 0x00, code == 0x12))
+	width := vInt("width")
+	vAssume(width >= 9 && width <= 12)
+	dataLen := vInt("dataLen")
+	vAssume(dataLen >= 0 && dataLen <= N)
+	data := vBytes("data", N)
+	n := vInt("n")
+	vAssume(n >= 0 && n <= N)
+	in := []byte{0x81, 0x08, 1, 0, 0, 0, code, 0, 0, 0, 0, 0, 0, 0, 1, 0, 0, 0}
+	in = append(in, vLE32(uint32(width))...)
+	in = append(in, vLE64(uint64(dataLen))...)
+	in = append(in, data[:n]...)
+	idx, err := ReadFrom(&vStream{data: in})
+	if err != nil || idx == nil {
+		vCover("rejected", true)
+		return
+	}
+	it, ok := idx.(IterableIndex)
+	vAssert("iterable", ok)
+	cnt := 0
+	ferr := it.ForEach(func(mh multihash.Multihash, off uint64) error {
+		cnt++
+		return nil
+	})
+	vAssert("records-within-data", cnt*width <= dataLen)
+	vCover("iterated-with-partial-tail", ferr == nil && cnt > 0 && dataLen%width != 0)
+	vCover("iterated-exact", ferr == nil && cnt > 0 && dataLen%width == 0)
+}
